@@ -37,7 +37,7 @@ FAMILIES = [
     ("AndersonCD", "Quadratic", "L1"), ("AndersonCD", "Quadratic", "WeightedL1"), ("AndersonCD", "Quadratic", "MCPenalty"),
     ("AndersonCD", "Logistic", "L1"), ("AndersonCD", "Huber", "WeightedL1"),
     ("ProxNewton", "Logistic", "WeightedL1"), ("ProxNewton", "Poisson", "L1"),
-    ("GramCD", None, "L1"), ("FISTA", "Quadratic", "L1"),
+    ("GramCD", None, "L1"), ("GramCD", None, "WeightedL1"), ("FISTA", "Quadratic", "L1"),
     ("GroupBCD", "QuadraticGroup", "WeightedGroupL2"), ("GroupBCD", "LogisticGroup", "WeightedGroupL2"),
     ("GroupProxNewton", "LogisticGroup", "WeightedGroupL2"),
     ("MultiTaskBCD", "QuadraticMultiTask", "L2_1"),
